@@ -27,8 +27,9 @@ type Program struct {
 	modWhy     map[string]bool
 	aliases    map[string]map[string]string // package path -> import alias -> imported path
 	guarantees map[string]Clause            // heap name -> two-state guarantee
-	ranges     map[string]Clause            // heap name -> assumed range of the stored value
-	monitors   map[string]*MonitorDecl      // struct type key -> monitor
+	ranges     map[string]Clause
+	guarded    map[string]bool         // field heap names guarded by their owner's lock            // heap name -> assumed range of the stored value
+	monitors   map[string]*MonitorDecl // struct type key -> monitor
 }
 
 const modPath = "github.com/kubewharf/kubebrain"
@@ -142,6 +143,7 @@ func loadProgram(repo string, patterns []string, specDir string) (*Program, erro
 		p.guarantees["F."+typeKey(obj.Type())+"."+gd.Designator[i+1:]] = gd.Clause
 	}
 	p.ranges = map[string]Clause{}
+	p.guarded = map[string]bool{}
 	for _, gd := range p.cs.Ranges {
 		tp := p.typesPkg(gd.Pkg)
 		i := strings.LastIndex(gd.Designator, ".")
@@ -155,7 +157,11 @@ func loadProgram(repo string, patterns []string, specDir string) (*Program, erro
 		if tp == nil || tp.Scope().Lookup(m.Type) == nil {
 			return nil, fmt.Errorf("monitor on unknown type %s", m.Type)
 		}
-		p.monitors[typeKey(tp.Scope().Lookup(m.Type).Type())] = m
+		ot := tp.Scope().Lookup(m.Type).Type()
+		p.monitors[typeKey(ot)] = m
+		for _, f := range m.Fields {
+			p.guarded["F."+typeKey(ot)+"."+strings.TrimSuffix(f, "[]")] = true
+		}
 	}
 	smt, _ := filepath.Glob(filepath.Join(specDir, "*.smt2"))
 	sort.Strings(smt)
